@@ -242,10 +242,11 @@ def _apply_unit(repo: str, header: str, body_lines: List[str], tpl_name: str) ->
                 cur = ("loop?" if opt else "loop", k, [])
                 sections.append(cur)
             elif d.startswith("before") or d.startswith("after"):
-                m = re.match(r"(before|after)\s+(\d+)\s+`([^`]*)`\s*:?", d)
+                # `before K `prefix` [in L]:` -- the K-th statement starting with prefix (inside the body of loop L, if given)
+                m = re.match(r"(before|after)\s+(\d+)\s+`([^`]*)`(?:\s+in\s+(\d+))?\s*:?", d)
                 if not m:
                     raise ExtractError("bad hint anchor in %s/%s: %s" % (tpl_name, uid, d))
-                cur = (m.group(1), m.group(2) + "\x00" + m.group(3), [])
+                cur = (m.group(1), m.group(2) + "\x00" + m.group(3) + "\x00" + (m.group(4) or ""), [])
                 sections.append(cur)
             elif d.startswith("keep-logging"):
                 opts["keep_logging"] = True
@@ -446,9 +447,18 @@ def _apply_unit(repo: str, header: str, body_lines: List[str], tpl_name: str) ->
             ci = rt.match_close(toks_b, bi)
             inserts.append((toks_b[ci].end, "\n" + txt + "\n"))
         elif kind in ("before", "after"):
-            k_s, pref = arg.split("\x00")
+            k_s, pref, in_loop = (arg.split("\x00") + [""])[:3]
             k = int(k_s)
             starts = rt.statement_starts(body, pref)
+            if in_loop:
+                heads = rt.loop_headers(body)
+                lk = int(in_loop)
+                if len(heads) < lk:
+                    raise ExtractError("%s: loop %d not found in %s (has %d loops)" % (uid, lk, info.item, len(heads)))
+                toks_h = rt.tokenize(body)
+                bi_h = next(i for i, t in enumerate(toks_h) if t.start == heads[lk - 1][0])
+                lo, hi = toks_h[bi_h].start, toks_h[rt.match_close(toks_h, bi_h)].end
+                starts = [x for x in starts if lo <= x < hi]
             if len(starts) < k:
                 raise ExtractError("%s: hint anchor `%s` #%d not found in %s" % (uid, pref, k, info.item))
             off = starts[k - 1]
